@@ -20,6 +20,7 @@ func installAll(c *Ctx, hpkgs []string, cuts []string) {
 	installNum(c)
 	installStr(c)
 	installBig(c, hpkgs)
+	installDeepEq(c, hpkgs)
 	installCuts(c, cuts)
 }
 
